@@ -357,9 +357,6 @@ func (a Amount) MarshalText() ([]byte, error) {
 // as a string and will be used for JSON, XML, or any other text
 // unmarshaling.
 func (a *Amount) UnmarshalText(value []byte) error {
-	if string(value) == "null" {
-		return nil
-	}
 	amount, err := AmountFromString(string(value))
 	if err != nil {
 		return err
@@ -372,6 +369,9 @@ func (a *Amount) UnmarshalText(value []byte) error {
 // UnmarshalJSON ensures amounts will be parsed even if defined as
 // numbers in the source JSON.
 func (a *Amount) UnmarshalJSON(value []byte) error {
+	if string(value) == "null" {
+		return nil
+	}
 	return a.UnmarshalText(unquote(value))
 }
 
